@@ -13,8 +13,8 @@ THOROUGH_RUNS = 10 ** 7
 RULE = ("seeded histories on 2-3 tokens: C_InitToken on the free slot, re-initialisation with right/wrong SO PIN and with/without open sessions, object, session, login and PIN "
         "operations on every token, external removal of a token directory between restarts, restarts. After every call all session handles are read out; periodically and at the end every "
         "token is read out completely (objects with label/value, both PINs by login, flags, label, serial, slot id) and compared with the reference model, which an operation on token A "
-        "never changes for token B. Distinct+non-trivial: (operation on A, number of other tokens, what the other tokens held, outcome).")
-PROBES = ["fresh_init_checked", "reinit_ok_checked", "reinit_wrong_pin", "reinit_with_session", "other_token_readout", "other_token_pins_verified", "restart_tokens_checked", "slot_id_formula", "new_free_slot", "token_removed_externally", "sessions_other_token_checked", "reinit_old_user_pin_probed"]
+        "never changes for token B. Every fifth plan runs on the SQLite object store (real SQLite on a scratch directory). Distinct+non-trivial: (operation on A, number of other tokens, what the other tokens held, outcome).")
+PROBES = ["fresh_init_checked", "reinit_ok_checked", "reinit_wrong_pin", "reinit_with_session", "other_token_readout", "other_token_pins_verified", "restart_tokens_checked", "slot_id_formula", "new_free_slot", "token_removed_externally", "sessions_other_token_checked", "reinit_old_user_pin_probed", "db_backend_runs"]
 DEATH_IS_VIOLATION = ()
 
 W = {"open": 8, "close": 5, "closeall": 1, "login": 8, "logout": 6, "create": 18, "destroy": 5, "copy": 3, "setlabel": 3, "restart": 2, "reinit": 6, "newtoken": 2, "setpin": 4, "fullcheck": 6, "rmtoken": 1}
@@ -91,6 +91,10 @@ def gen(seed, tier, index):
     g = GW(seed, "C14", ntok=r0.choice([2, 2, 2, 3]))
     r = g.r; g.max_objs = 12
     g.kinds = ["data", "aes", "cert", "rsa_pub", "generic", "ec_priv"]
+    dbmode = (index % 5 == 4)
+    if dbmode:
+        # configuration stratum: the SQLite object store (real SQLite on a scratch directory behind the pass-through path of the file layer)
+        g.knobs.setdefault("conf", {})["objectstore.backend"] = "db"; g.knobs["tokendir"] = "@scratch"
     g.begin()
     def probe(tid, pid):
         g.emit({"act": "probe_handles", "via": []}, tid)
@@ -100,8 +104,10 @@ def gen(seed, tier, index):
         if r.random() < 0.7: g.s_login(user=K.CKU_USER, tok=t)
     for _ in range(r.choice([2, 4, 6])): g.s_create()
     n = r.choice([6, 10, 16, 24]) if tier == "quick" else r.choice([10, 20, 40])
+    Wd = dict(W)
+    if dbmode: Wd.pop("rmtoken", None)       # removing a token directory behind the library's back is an action of the simulated disk only
     for _ in range(n):
-        g.step(W)
+        g.step(Wd)
     # final: everything is closed, then a full check, a restart and a full check again
     for t in g.toks(): g.emit({"f": "C_CloseAllSessions", "slot": t})
     g.s_fullcheck()
@@ -116,6 +122,7 @@ def check(plan, r):
     viols = []; cov = set(); stats = {}
     def st(k, n=1): stats[k] = stats.get(k, 0) + n
     w = World(); pids = hist.pid_track(plan)
+    if plan["knobs"].get("conf", {}).get("objectstore.backend") == "db": st("db_backend_runs")
     lastop = ("", None, None)  # (name, token it worked on, op index)
     def tok_of(pid, op):
         if "slot" in op and isinstance(op["slot"], str): return op["slot"]
